@@ -203,6 +203,10 @@ class Repo:
         return out
 
     def mro(self, mod: Module, cls: ast.ClassDef) -> List[Tuple[Module, ast.ClassDef]]:
+        cache = self.__dict__.setdefault("_mro_cache", {})
+        hit = cache.get(id(cls))
+        if hit is not None:
+            return list(hit)
         seen: List[Tuple[Module, ast.ClassDef]] = []
         todo = [(mod, cls)]
         while todo:
@@ -211,6 +215,7 @@ class Repo:
                 continue
             seen.append((m, c))
             todo.extend(self.class_bases(m, c))
+        cache[id(cls)] = list(seen)
         return seen
 
     def method(self, mod: Module, cls: ast.ClassDef, name: str) -> Optional[Tuple[Module, ast.AST]]:
@@ -254,12 +259,21 @@ class Repo:
         if isinstance(expr, ast.Name):
             # nested/local definitions first (walk enclosing scopes)
             scope = ctx if ctx is not None else expr
+            cache = self.__dict__.setdefault("_local_defs_cache", {})
             for a in [scope] + list(ancestors(scope)):
                 if isinstance(a, FuncNode + (ast.Module,)):
-                    for st in ast.walk(a) if not isinstance(a, ast.Module) else a.body:
-                        if isinstance(st, FuncNode + (ast.ClassDef,)) and st.name == expr.id:
-                            if isinstance(a, ast.Module) or enclosing_function(st) is a:
-                                return mod, st
+                    table = cache.get(id(a))
+                    if table is None:
+                        table = {}
+                        for st in ast.walk(a) if not isinstance(a, ast.Module) else a.body:
+                            if isinstance(st, FuncNode + (ast.ClassDef,)) and st.name not in table:
+                                if isinstance(a, ast.Module) or enclosing_function(st) is a:
+                                    table[st.name] = st
+                        # normal forms (sa/normal.py) are rewritten in place while being built: never cache them
+                        if not hasattr(a, "_normal_of"):
+                            cache[id(a)] = table
+                    if expr.id in table:
+                        return mod, table[expr.id]
             target = mod.imports.get(expr.id)
             if target:
                 return self.resolve_dotted(target)
